@@ -3,7 +3,7 @@ HOOK_COMMITS = ['621a573', '7ae3ccb']
 ENGINES = [
     dict(name='verus-extract', path='/verif/vlib', serves_properties=['C04', 'C05', 'C06', 'C08', 'C12', 'C14', 'C15', 'C17', 'C20'],
          kind_free_text='Verus 0.2026.09.13 on functions extracted mechanically from /repo on every run, contracts injected from /verif/units/<unit>/unit.rs'),
-    dict(name='kani-contracts', path='/verif/kani', serves_properties=['C01', 'C02', 'C03', 'C06', 'C10', 'C11', 'C15', 'C16', 'C17', 'C18', 'C19', 'C20'],
+    dict(name='kani-contracts', path='/verif/kani', serves_properties=['C01', 'C02', 'C03', 'C06', 'C07', 'C10', 'C11', 'C15', 'C16', 'C17', 'C18', 'C19', 'C20'],
          kind_free_text='Kani 0.68 function contracts (proof_for_contract) and loop-free full-domain harnesses on the real crates of /repo (path dependencies), CBMC 6.11'),
 ]
 NOTES = ('Contract-based deductive verification. exit 0 = all obligations discharged; exit 1 = VIOLATION; '
@@ -13,6 +13,12 @@ NOT_APPLICABLE = {
     'C13': 'bus state is BTreeMap+VecDeque behind Rc<RefCell> driven by std iterator closures: no Verus model, Kani measured >10 min for 2 outputs x 2 ops (DESIGN.md §7)',
 }
 CHECKS = {
+    'C07': dict(
+        engine='kani-contracts', category='model_checking',
+        technique='allocator put under contract: std::alloc entry points stubbed with precondition `!STEADY`; bounded Kani harnesses over a stated API surface',
+        text='BOUNDED: after construction, the listed operations of the sample, frame, borrowed-slice, ring-buffer, peak, RMS, envelope, interpolation, window and signal APIs never reach the allocator (allocation or reallocation) on any path for symbolic inputs; ring buffers are checked from every valid (start,len) state so one call covers every history of those operations.',
+        note='Surface stated in the evidence; frees are not intercepted; bus, graph processor, by_rc, boxed conversions, libm-based oscillators not covered. Model checking over short call sequences, not proof.',
+    ),
     'C16': dict(
         engine='kani-contracts', category='model_checking',
         technique='bounded Kani harnesses calling Node::process of the stock nodes directly (guarded hook Input::verif_new), bit-precise f32, enumerated shapes',
